@@ -205,6 +205,10 @@ func (g *typesGen) newEnum(rank int, name string) tgType {
 		switch {
 		case base == "string":
 			lit = fmt.Sprintf(`"%s"`, []string{"red", "green", "blue"}[k])
+			if k == 1 && r.Chance(1, 3) {
+				// members that look like a zero value are members all the same
+				lit = rng.Pick(r, []string{`""`, `""`, `"0"`, `"false"`, `"null"`})
+			}
 		case base == "bool":
 			if k > 1 {
 				continue
